@@ -105,4 +105,36 @@ def displayNat (n : Nat) : List Char :=
   if h : n < 10 then [Char.ofNat (48 + n)] else displayNat (n / 10) ++ [Char.ofNat (48 + n % 10)]
 decreasing_by omega
 
+/-- alignment requested in a format spec -/
+inductive Align | left | right | center
+deriving DecidableEq, Repr
+
+/-- the parts of a `{:...}` format spec that integer `Display` looks at (and `precision`, which it ignores) -/
+structure FmtSpec where
+  fill : Char := ' '
+  align : Option Align := none
+  plus : Bool := false
+  zero : Bool := false
+  width : Option Nat := none
+  precision : Option Nat := none
+
+/-- `core::fmt::Formatter::pad_integral` for a non-negative integer without a radix prefix: the derived
+    `Display` of a restricted integer hands the caller's formatter to the primitive's `Display` -/
+def padIntegral (f : FmtSpec) (digits : List Char) : List Char :=
+  let sign := if f.plus then ['+'] else []
+  let len := sign.length + digits.length
+  match f.width with
+  | none => sign ++ digits
+  | some w =>
+    if w ≤ len then sign ++ digits
+    else if f.zero then sign ++ List.replicate (w - len) '0' ++ digits
+    else
+      let pad := w - len
+      match f.align.getD .right with
+      | .left => sign ++ digits ++ List.replicate pad f.fill
+      | .right => List.replicate pad f.fill ++ sign ++ digits
+      | .center => List.replicate (pad / 2) f.fill ++ sign ++ digits ++ List.replicate ((pad + 1) / 2) f.fill
+
+def displayWith (f : FmtSpec) (n : Nat) : List Char := padIntegral f (displayNat n)
+
 end Midi
